@@ -2,7 +2,7 @@
    known/C05.json), as executable predicates on the delivery log of a history, and the mild
    name condition the history-level theorems assume.  Definitions only. *)
 From Coq Require Import List NArith Bool.
-From Mdns Require Import Res Bytes Rec Wire Cache Browser C03Spec BrowserSpec.
+From Mdns Require Import Res Bytes Rec Wire ParamsBrowser Cache Browser C03Spec BrowserSpec.
 Import ListNotations.
 Open Scope N_scope.
 
@@ -197,3 +197,59 @@ Fixpoint known_reannounced (l : list dlv) : bool :=
     (((r_type (dl_rr a) =? TY_SRV) || (r_type (dl_rr a) =? TY_TXT)) && aba_from a false t)
     || known_reannounced t
   end.
+
+(* C04-last-second-refresh-not-new / C04-browse-over-expiring-ptr as ONE class of histories (round 8):
+   a delivery that is NOT reported as a new record (it refreshes a cached record, or is refused, or is
+   a PTR record with TTL <= 1, which is never reported) turns an instance of a browsed name strongly
+   alive - handle_response then has no reason to resolve it.  Evaluated along the model's run. *)
+Definition turned_alive (c c' : cache) (q : list (bytes * N)) (now : N) : bool :=
+  existsb (fun tc =>
+    match bm_get (fst tc) (c_ptr c') with
+    | Some b => existsb (fun p => alive_strong c' now (fst tc) (alias_of (e_rr p))
+                                 && negb (alive_strong c now (fst tc) (alias_of (e_rr p)))) b
+    | None => false
+    end) q.
+
+Definition reported_new (res : option (entry * bool)) : bool :=
+  match res with
+  | Some (e, true) => negb ((e_type e =? TY_PTR) && negb (found_ttl_guard (e_ttl e)))
+  | _ => false
+  end.
+
+Fixpoint records_refresh_only (c : cache) (now ifx : N) (q : list (bytes * N)) (fu : bool) (rs : list rr) : bool :=
+  match rs with
+  | [] => false
+  | r :: rest =>
+    let '(c1, res) := add_or_update c now ifx r fu in
+    (negb (reported_new res) && turned_alive c c1 q now) || records_refresh_only c1 now ifx q fu rest
+  end.
+
+Definition read_refresh_only (ifs : iftab) (s : st) (now : N) (d : dgram) : bool :=
+  match accepted_msg ifs d with
+  | Some m => records_refresh_only (s_cache s) now (d_if d) (s_q s) (for_us (s_q s) (m_answers m))
+                                   (m_answers m ++ m_authorities m ++ m_additionals m)
+  | None => false
+  end.
+
+Fixpoint reads_refresh_only (ifs : iftab) (s : st) (now : N) (ds : list dgram) : bool :=
+  match ds with
+  | [] => false
+  | d :: t => read_refresh_only ifs s now d || reads_refresh_only ifs (fst (handle_read ifs s now d)) now t
+  end.
+
+Fixpoint known_refresh_from (ifs : iftab) (s : st) (h : list iter) : bool :=
+  match h with
+  | [] => false
+  | it :: t =>
+    reads_refresh_only ifs s (i_now it) (deliveries_in_order (i_dgrams it))
+    || known_refresh_from ifs (fst (iterate ifs s it)) t
+  end.
+
+Definition known_refresh_completes (ifs : iftab) (h : list iter) : bool := known_refresh_from ifs init_st h.
+
+(* the histories outside the known classes that concern the COMPLETENESS clause of C04 *)
+Definition complete_class (ifs : iftab) (h : list iter) : bool :=
+  safe_class ifs h && fresh_channels h && negb (known_refresh_completes ifs h).
+
+Definition is_complete_fail (f : BrowserSpec.fail) : bool :=
+  match f with BrowserSpec.F04_complete _ _ _ _ _ => true | _ => false end.
